@@ -12,7 +12,8 @@
    tokens in play apart ([hash_inj_on]); without that the statement is false of
    the code (C03_own_token_refuted, finding F18). *)
 From Coq Require Import ZArith List Bool Arith.
-From GoCoap Require Import Base.Interleave Observe.Model Token.Model Token.Spec Token.Proofs.
+From GoCoap Require Import Base.Interleave Observe.Model Token.Model Token.Spec Token.Proofs
+  Token.BwModel Token.BwSpec Token.BwProofs Token.WriterModel Token.WriterProofs.
 Import ListNotations.
 Local Open Scope nat_scope.
 
@@ -166,4 +167,138 @@ Proof.
     contradiction.
   - vm_compute. repeat constructor; cbn; intuition discriminate.
   - vm_compute. reflexivity.
+Qed.
+
+(* ================= the block-wise layer around the token table (Token/BwModel.v) =================
+   [brun hash progs sched]: caller threads run lists of [BCall cid tok mode] (= BlockWise.Do: LoadOrStore on
+   the sending cache, doInternal, deferred Delete installed after the check), receive threads lists of
+   [BRecv del r blk] (= BlockWise.Handle for a whole response or for block (num, more) of one: paired
+   request, reassembly, dispatch through the token table). ALL programs, ALL schedules. *)
+Notation bhist c := (rhist bst bop bloc bres c).
+
+(* ---- a successful Do returns a response with its own token and the content produced for it ---- *)
+Theorem C03_bw_own_token : forall hash progs sched,
+  hash_inj_on hash (ball_toks progs) ->
+  forall t n cid tok m r,
+    In (ERes t n (BCall cid tok m) (BRet (ROk r))) (bhist (brun hash progs sched)) -> r_tok r = tok.
+Proof. intros hash progs sched H. exact (bw_own_token_holds hash progs sched H). Qed.
+Print Assumptions C03_bw_own_token.
+
+Theorem C03_bw_own_content : forall hash progs sched,
+  hash_inj_on hash (ball_toks progs) -> bhonest progs ->
+  forall t n cid tok m r,
+    In (ERes t n (BCall cid tok m) (BRet (ROk r))) (bhist (brun hash progs sched)) -> r_for r = cid.
+Proof. intros hash progs sched H1 H2. exact (bw_own_content_holds hash progs sched H1 H2). Qed.
+Print Assumptions C03_bw_own_content.
+
+(* ---- a second Do whose token('s key) is in the sending cache is rejected and leaves everything as it is ---- *)
+Theorem C03_bw_dup_rejected : forall hash (c : bconfig) t th cid tok m w,
+  nth_error (threads bst bop bloc bres c) t = Some th ->
+  cur bop bloc bres th = Running (BCall cid tok m) B0 ->
+  tget (hash tok) (sending (shared bst bop bloc bres c)) = Some w ->
+  shared bst bop bloc bres (bstep hash c t) = shared bst bop bloc bres c /\
+  nth_error (threads bst bop bloc bres (bstep hash c t)) t =
+    Some (mkT bop bloc bres (todo bop bloc bres th) (Finished (BCall cid tok m) BInvalid) (idx bop bloc bres th)).
+Proof. exact bw_dup_rejected_step. Qed.
+Print Assumptions C03_bw_dup_rejected.
+
+(* ---- ... rather than displacing the first: in every reachable configuration, every Do that has registered
+   its request and not yet run its deferred Delete still finds ITS request in the sending cache (no hypothesis
+   on the tokens or the hash: a Do with an equal key is refused for as long as the first one runs) ---- *)
+Theorem C03_bw_first_not_displaced : forall hash progs sched, paired_kept hash (brun hash progs sched).
+Proof. exact paired_kept_run. Qed.
+Print Assumptions C03_bw_first_not_displaced.
+
+(* ---- hence a block of the response for an outstanding Do is not refused for lack of the paired request:
+   the receive path finds it, writes no 4.08 and goes on to the reassembly ---- *)
+Theorem C03_bw_block_accepted : forall hash progs sched t th w t' th' del r num more,
+  nth_error (threads bst bop bloc bres (brun hash progs sched)) t = Some th ->
+  holds_request (cur bop bloc bres th) = Some w ->
+  nth_error (threads bst bop bloc bres (brun hash progs sched)) t' = Some th' ->
+  cur bop bloc bres th' = Running (BRecv del r (Some (num, more))) B0 ->
+  hash (r_tok r) = hash (snd w) ->
+  shared bst bop bloc bres (bstep hash (brun hash progs sched) t') = shared bst bop bloc bres (brun hash progs sched) /\
+  nth_error (threads bst bop bloc bres (bstep hash (brun hash progs sched) t')) t' =
+    Some (mkT bop bloc bres (todo bop bloc bres th') (Running (BRecv del r (Some (num, more))) BLook) (idx bop bloc bres th')).
+Proof. intros hash progs sched. exact (block_not_refused hash progs sched). Qed.
+Print Assumptions C03_bw_block_accepted.
+
+(* ---- the position of the deferred Delete matters: installed BEFORE the register-if-absent check
+   ([brun_early]) the refused second Do removes the request of the first, which is still waiting, and both
+   blocks of its response are answered 4.08; on the machine of the code the same programs end with the first
+   Do returning the response ---- *)
+Theorem C03_bw_early_delete_refuted :
+  (let c := brun_early crc64 displace_progs displace_sched in
+   nth_error (threads bst bop bloc bres c) 0 =
+     Some (mkT bop bloc bres [] (Running (BCall 0 tokD MWait) (BIn (Call 0 tokD MWait) LWait)) 0) /\
+   In (ERes 1 0 (BCall 1 tokD MWait) BInvalid) (bhist c) /\
+   sending (shared bst bop bloc bres c) = [] /\
+   In (ERes 2 0 (BRecv true (mkR 1 tokD 0) (Some (0, true))) BIncomplete) (bhist c) /\
+   In (ERes 2 1 (BRecv true (mkR 1 tokD 0) (Some (1, false))) BIncomplete) (bhist c)) /\
+  (let c := brun crc64 displace_progs keep_sched in
+   In (ERes 1 0 (BCall 1 tokD MWait) BInvalid) (bhist c) /\
+   In (ERes 2 0 (BRecv true (mkR 1 tokD 0) (Some (0, true))) (BAsked 1)) (bhist c) /\
+   In (ERes 0 0 (BCall 0 tokD MWait) (BRet (ROk (mkR 1 tokD 0)))) (bhist c) /\
+   refused (shared bst bop bloc bres c) = [] /\ sending (shared bst bop bloc bres c) = []).
+Proof. split; [exact early_delete_displaces|exact late_delete_keeps]. Qed.
+Print Assumptions C03_bw_early_delete_refuted.
+
+(* ================= the response-writer message on the receive path (Token/WriterModel.v) =================
+   While it handles one received message the receive path releases the message it acquired for the writer,
+   every message the handler put in its place (SetMessage: request for the next block, 4.08) and -- unless a
+   waiting call was handed it -- the received message: each exactly once, whatever the handler does. A
+   response handed to a caller is never released under it. *)
+Theorem C03_writer_released_once : forall tcp orig req hijacked sets,
+  NoDup (orig :: req :: sets) ->
+  NoDup (process tcp orig req hijacked sets) /\
+  (forall x, In x (process tcp orig req hijacked sets) <-> In x (orig :: sets) \/ (hijacked = false /\ x = req)).
+Proof.
+  intros tcp orig req hijacked sets H. split; [exact (process_once tcp orig req hijacked sets H)|].
+  intros x. exact (process_perm tcp orig req hijacked sets x).
+Qed.
+Print Assumptions C03_writer_released_once.
+
+Theorem C03_handed_over_response_not_released : forall tcp orig req sets,
+  NoDup (orig :: req :: sets) -> ~ In req (process tcp orig req true sets).
+Proof. exact hijacked_not_released. Qed.
+Print Assumptions C03_handed_over_response_not_released.
+
+(* with the release of the acquired message deferred before the handler runs, one SetMessage is enough:
+   that message is released twice and the replacement never *)
+Theorem C03_writer_early_release_refuted : forall orig req hijacked m sets,
+  NoDup (orig :: req :: m :: sets) ->
+  ~ NoDup (process_early orig req hijacked (m :: sets)) /\
+  ~ In (wcur (run_handler orig (m :: sets))) (process_early orig req hijacked (m :: sets)).
+Proof. exact early_release_refuted. Qed.
+Print Assumptions C03_writer_early_release_refuted.
+
+(* ---- the hypotheses are satisfiable by a non-trivial instance: three Do (one gives up), a response in
+   two blocks with a whole response for another call in between, one block of a response nobody waits for
+   (answered 4.08); the same-token instance is the one of C03_bw_early_delete_refuted ---- *)
+Definition bex_progs : list (list bop) :=
+  [[BCall 0 [113]%Z MWait]; [BCall 1 [5]%Z MCancel]; [BCall 2 [7; 7]%Z MWait];
+   [BRecv true (mkR 1 [113]%Z 0) (Some (0, true)); BRecv true (mkR 2 [7; 7]%Z 2) None;
+    BRecv true (mkR 1 [113]%Z 0) (Some (1, false)); BRecv false (mkR 3 [9]%Z 99) (Some (0, true))]].
+Definition bex_sched : list nat :=
+  [0; 0; 0; 0; 1; 1; 1; 1; 2; 2; 2; 2; 3; 3; 3; 3; 3; 3; 3; 3; 3; 3; 3; 3; 3; 3; 3; 3; 3; 3; 3;
+   0; 0; 0; 0; 2; 2; 2; 2; 1; 1; 1; 1].
+
+Example C03_bw_hypotheses_satisfiable :
+  hash_inj_on crc64 (ball_toks bex_progs) /\ bhonest bex_progs /\
+  (let c := brun crc64 bex_progs bex_sched in
+   length (bhist c) = 14 /\
+   In (ERes 0 0 (BCall 0 [113]%Z MWait) (BRet (ROk (mkR 1 [113]%Z 0)))) (bhist c) /\
+   In (ERes 2 0 (BCall 2 [7; 7]%Z MWait) (BRet (ROk (mkR 2 [7; 7]%Z 2)))) (bhist c) /\
+   In (ERes 1 0 (BCall 1 [5]%Z MCancel) (BRet RCtx)) (bhist c) /\
+   refused (shared bst bop bloc bres c) = [mkR 3 [9]%Z 99]).
+Proof.
+  split; [|split].
+  - intros a b Ha Hb. cbn in Ha, Hb.
+    repeat (destruct Ha as [<-|Ha]; [repeat (destruct Hb as [<-|Hb]; [vm_compute; intros E; first [reflexivity|discriminate E]|]); contradiction|]).
+    contradiction.
+  - intros del r blk Hr cid tok Hc E. cbn in Hr, Hc.
+    repeat (destruct Hr as [Hr|Hr]; [try discriminate Hr; inversion Hr; subst; clear Hr;
+      repeat (destruct Hc as [Hc|Hc]; [inversion Hc; subst; first [reflexivity|discriminate E]|]); contradiction|]).
+    contradiction.
+  - vm_compute. repeat split; auto 20.
 Qed.
